@@ -1554,6 +1554,7 @@ RunResult run_world(const Script& script)
     Task* last = nullptr;
     bool hang = false;
     bool engine_deadlock = false;
+    size_t sched_pos = 0;
 
     for (;;)
     {
@@ -1608,9 +1609,22 @@ RunResult run_world(const Script& script)
         }
         Task* t = nullptr;
         int64_t quantum = 1;
-        world.pick(el, t, quantum);
-        // no decision to take: a single runnable task and no GUI event pending -> let it run (bounded by the bound checks below)
-        if (el.size() == 1 && world.gui_time_event < 0 && quantum < 20000) quantum = 20000;
+        if (sched_pos < script.sched.size())
+        {
+            // explicit schedule prefix (replay of a minimised schedule)
+            auto d = script.sched[sched_pos++];
+            for (Task* e : el)
+                if (e->id == d.first) t = e;
+            quantum = d.second;
+            if (!t) { world.counters["sched_prefix_mismatch"]++; world.pick(el, t, quantum); }
+        }
+        else
+        {
+            world.pick(el, t, quantum);
+            // no decision to take: a single runnable task and no GUI event pending -> let it run (bounded by the bound checks below)
+            if (el.size() == 1 && world.gui_time_event < 0 && quantum < 20000) quantum = 20000;
+        }
+        if (script.record_sched) world.result.sched_rec.push_back({t->id, quantum});
         if (t != last)
         {
             world.result.ctx_switches++;
